@@ -90,7 +90,7 @@ def poll (r : Ribbon) (x : F32) : Option Ribbon :=
     some { r with received := 0, written := 0 }
 
 /-- `value()` -/
-def value (r : Ribbon) : F32 := F32.min (div r.current r.boundary) one
+def value (r : Ribbon) : F32 := F32.fmin (div r.current r.boundary) one
 
 def readJustPressed (r : Ribbon) : Bool × Ribbon := (r.justPressed, { r with justPressed := false })
 def readJustReleased (r : Ribbon) : Bool × Ribbon := (r.justReleased, { r with justReleased := false })
